@@ -7,6 +7,10 @@ try:
     import nesting
 except Exception:
     nesting = None
+try:
+    import splitmerge
+except Exception:
+    splitmerge = None
 
 META = dict(
     text=("Coq model of the OutRec ownership bookkeeping (SetOwner with its compression and cycle-avoidance loops, GetRealOutRec, "
@@ -78,6 +82,46 @@ def rand_ops(rng):
     return 'OPS %d %d %s' % (n, len(ops), ' '.join(ops))
 
 
+def movesplits_ops(rng):
+    """MoveSplits(from, to) with BOTH split lists non-empty (the merge branch of ProcessHorzJoins joining two OutRecs that
+    each split off rings before), followed by the queries and edits that read the lists"""
+    n = rng.range(3, 7)
+    i = rng.below(n)
+    j = (i + 1 + rng.below(n - 1)) % n
+    ops = []
+    for r, cnt in ((i, rng.range(1, 3)), (j, rng.range(1, 3))):
+        for _ in range(cnt):
+            ops.append('A %d %d' % (r, rng.below(n)))
+    rng.shuffle(ops)
+    if rng.chance(1, 3):
+        ops.insert(rng.below(len(ops) + 1), 'P %d 0' % rng.below(n))
+    ops.append('M %d %d' % (i, j))
+    for _ in range(rng.range(0, 4)):
+        a, b = rng.below(n), rng.below(n)
+        w = rng.below(5)
+        if w == 0:
+            ops.append('A %d %d' % (a, b))
+        elif w == 1:
+            ops.append('M %d %d' % (a, b if a != b else (a + 1) % n))
+        elif w == 2:
+            ops.append('S %d %d' % (a, b if a != b else (a + 1) % n))
+        elif w == 3:
+            ops.append('G %d' % a)
+        else:
+            ops.append('P %d %d' % (a, rng.below(2)))
+    return 'OPS %d %d %s' % (n, len(ops), ' '.join(ops))
+
+
+def viol(ctx, key, what, replay=None, nofail=False, cap=3):
+    """ctx.violation, at most `cap` times per key: vf.Ctx keeps 50 violations in all, and a correspondence break that shows on
+    thousands of owner-edit sequences must not crowd out the failing inputs the later phases find"""
+    seen = ctx.cov.setdefault('violations_by_key', {})
+    seen[key] = seen.get(key, 0) + 1
+    if seen[key] > cap:
+        return False
+    return ctx.violation(key, what, replay=replay, nofail=nofail)
+
+
 def enum_ops():
     """all SetOwner/pts-null sequences of length <= 4 over 3 OutRecs, each followed by GetRealOutRec queries"""
     atoms = ['S %d %d' % (i, j) for i in range(3) for j in range(3) if i != j] + ['P %d 0' % i for i in range(3)]
@@ -128,7 +172,8 @@ def phase_ops(ctx, env, n):
     if w != wm or ': 0 ;' not in w:
         ctx.violation('tie.owner-ops', 'the witness of C04_owner_forest_refuted_without_wf (SetOwner(x, x) makes x own itself) is not reproduced '
                       'by the real SetOwner: C++ %s / model %s' % (w[:120], wm[:120]), replay=dict(kind='ops', line=REFUTED_WITNESS, cpp=w, model=wm), nofail=True)
-    lines = enum_ops() + [rand_ops(rng) for _ in range(n)]
+    rng_ms = ctx.rng.fork(22)
+    lines = enum_ops() + [rand_ops(rng) for _ in range(n)] + [movesplits_ops(rng_ms) for _ in range(n // 10)]
     a, fa = vf.par_lines(env.exes['owner'], lines, timeout=120)
     if fa:
         l, rc, err = vf.isolate_failure(env.exes['owner'], fa[0][0], timeout=20)
@@ -142,8 +187,8 @@ def phase_ops(ctx, env, n):
     for l, x, y in zip(lines, a, b):
         ctx.count('owner_op_sequences')
         if x != y:
-            ctx.violation('tie.owner-ops', 'owner edits: real functions and model disagree on "%s": C++ %s / model %s' % (l[:120], x[-160:], y[-160:]),
-                          replay=dict(kind='ops', line=l, cpp=x, model=y), nofail=True)
+            viol(ctx, 'tie.owner-ops', 'owner edits: real functions and model disagree on "%s": C++ %s / model %s' % (l[:120], x[-160:], y[-160:]),
+                 replay=dict(kind='ops', line=l, cpp=x, model=y), nofail=True)
         # forest invariant observed on the real state: no OutRec reaches itself
         last = x.rsplit('|', 1)[-1].split(':', 1)[-1].split(';')[0].split() if '|' in x else []
         own = [int(v) for v in last]
@@ -152,7 +197,7 @@ def phase_ops(ctx, env, n):
             while t >= 0 and steps <= len(own):
                 t = own[t] if t < len(own) else -1; steps += 1
             if steps > len(own):
-                ctx.violation('owner.cycle', 'owner graph has a cycle after "%s": %s' % (l[:160], own), replay=dict(kind='ops', line=l))
+                viol(ctx, 'owner.cycle', 'owner graph has a cycle after "%s": %s' % (l[:160], own), replay=dict(kind='ops', line=l))
                 break
 
 
@@ -164,6 +209,11 @@ def rect_case(rng):
         k = 2
         S = [polys.rect(0, 0, 20 * k, 20 * k), list(reversed(polys.rect(4 * k, 4 * k, 16 * k, 16 * k))), polys.rect(6 * k, 6 * k, 10 * k, 10 * k)]
         C, kind = [], 'fallback'
+    return dict(S=S, O=[], C=C, kind='rect:' + kind, geom='rect')
+
+
+def sm_case(rng):
+    S, C, kind = splitmerge.gen_splitmerge_case(rng)
     return dict(S=S, O=[], C=C, kind='rect:' + kind, geom='rect')
 
 
@@ -464,6 +514,46 @@ def classify_nesting(env, c, ct, fr, pc, rs, prec, nodes, k):
             o = st['owner'][o]; steps += 1
         if X in _split_closure(st, T):
             return 'origin-of-split-not-searched'
+        # container-is-sibling-split-of-origin (its own key, narrow rule): X has no owner, or its nearest owner with points does
+        # not contain it (ProcessHorzJoins' split branch: `or2->owner = or1->owner`); some OutRec O that is NOT on X's owner
+        # chain reaches X through its split list; the true container T is ANOTHER ring reachable from O's split list (T != O;
+        # T == O stays with origin-of-split-not-searched above, exactly as before).  The split list of the OutRec a ring was
+        # split FROM is never searched.  triage/demos/C04-split-sibling-island.cpp
+        chain0, o = set(), st['owner'][X]
+        while o >= 0 and o not in chain0:
+            chain0.add(o); o = st['owner'][o]
+        node_of = {idx_: i_ for i_, (idx_, par_) in enumerate(st['tree'])}
+        ro, steps = st['owner'][X], 0
+        while ro >= 0 and not st['pts'][ro] and steps <= len(st['owner']):
+            ro = st['owner'][ro]; steps += 1
+        unowned = ro < 0 or ro not in node_of or not _contains(paths[node_of[ro]], paths[k])
+        if unowned:
+            for O in range(len(st['pts'])):
+                if O != X and O != T and O not in chain0 and st['splits'][O]:
+                    sc = _split_closure(st, O)
+                    if X in sc and T in sc:
+                        return 'container-is-sibling-split-of-origin'
+        # the dumped owner chain of X: an owner (or, through a point-less split, an owner further up) was accepted although T is
+        # reachable from the split list of one of them
+        o, steps = st['owner'][X], 0
+        while o >= 0 and steps <= len(st['owner']):
+            if o == T or T in _split_closure(st, o):
+                return 'owner-accepted-inside-split-search'
+            o = st['owner'][o]; steps += 1
+        if X in _split_closure(st, T):
+            return 'origin-of-split-not-searched'
+        # (cov round) the same defect with the container one step aside: X was split off an OutRec O (it is reachable from O's
+        # split list) that is not on X's owner chain -- ProcessHorzJoins gave it or1->owner -- and its container T is O or
+        # another ring split off O; the split list of the OutRec a ring was split FROM is never searched
+        # (triage/demos/C04-split-sibling-island.cpp)
+        chain0, o = set(), st['owner'][X]
+        while o >= 0 and o not in chain0:
+            chain0.add(o); o = st['owner'][o]
+        for O in range(len(st['pts'])):
+            if O != X and O not in chain0 and st['splits'][O]:
+                sc = _split_closure(st, O)
+                if X in sc and (T == O or T in sc):
+                    return 'origin-of-split-not-searched'
         # ... or the OutRec X was split off has lost its points since (its ring went elsewhere)
         chain, o = set(), st['owner'][X]
         while o >= 0 and o not in chain:
@@ -514,9 +604,271 @@ def refine_keys(env, c, ct, fr, pc, rs, prec, r, codes):
                 group = [idx] + ([j for j in range(len(nodes)) if j != idx and _parent_index(nodes, j) == par] if code == 33 else [])
                 if any(_self_crossing(nodes[j][3]) or _figure_eight(nodes[j][3]) for j in group):
                     key = 'tree.self-crossing-ring'
+        if code == 32 and not c.get('O') and 0 <= idx < len(nodes):
+            # a figure-of-eight ring (an outer loop fused with a hole of another polygon) that the tree places as the HOLE: its
+            # outer loop then lies outside the parent.  Own key, only when the flagged ring itself is the figure of eight.
+            if _self_crossing(nodes[idx][3]) or _figure_eight(nodes[idx][3]):
+                key = 'tree.self-crossing-ring.child-outside-parent'
         if (key, idx) not in out:
             out.append((key, idx))
     return out
+
+
+# ----------------------------------------------------------------------------- the entry points of clipper.h around a PolyTree
+# PolyTreeToPaths64/D, CheckPolytreeFullyContainsChildren, operator<<(ostream, PolyTree64/D), the free BooleanOp overloads with a
+# PolyTree solution (harness EXT64 / EXTD / SYN).  Each is judged against something C04 already judges: the tree itself (its
+# preorder traversal by the harness, whose paths and nesting tree_check decides), the extracted model of the library's own
+# nesting test (TreeCheck.fully_contains, tied to clause 32 by C04_fully_contains_of_tree_check), Execute on a fresh object.
+EXACT_PIP = 2 ** 25          # PointInPolygon's cross products are exact in double up to here
+
+
+def tree_children(nodes):
+    """children lists from the preorder depths; -1 = the root"""
+    ch = {-1: []}
+    stack = []
+    for i, n in enumerate(nodes):
+        del stack[n[0]:]
+        ch.setdefault(stack[-1] if stack else -1, []).append(i)
+        ch[i] = []
+        stack.append(i)
+    return ch
+
+
+def outline_text(nodes, is_d):
+    """what operator<< has to print (newlines as ~): a header with the number of top-level polygons, then one line per node
+    that HAS children (index among its siblings, kind by depth parity = C04_level_hole, number of children), indented by depth"""
+    ch = tree_children(nodes)
+    out = ['', 'Polytree with %d polygon%s' % (len(ch[-1]), '.' if len(ch[-1]) == 1 else 's.')]
+
+    def rec(i, idx, pre):
+        c = len(ch[i])
+        if nodes[i][0] % 2:
+            out.append('%s+- Hole (%d) contains %d nested polygon%s' % (pre, idx, c, '.' if c == 1 else 's.'))
+        else:
+            out.append('%s+- Polygon (%d) contains %d hole%s' % (pre, idx, c, '.' if c == 1 else 's.'))
+        for k, j in enumerate(ch[i]):
+            if ch[j]:
+                rec(j, k, pre + '  ')
+    for k, j in enumerate(ch[-1]):
+        if ch[j]:
+            rec(j, k, '  ')
+    return '~'.join(out) + '~~~' + ('~' if is_d else '')
+
+
+def _take_tree(t, pos):
+    cnt = int(t[pos]); start = pos; pos += 1
+    nodes = []
+    for _ in range(cnt):
+        d, h, nc, k = int(t[pos]), int(t[pos + 1]), int(t[pos + 2]), int(t[pos + 3]); pos += 4
+        nodes.append((d, h, nc, [(int(t[pos + 2 * j]), int(t[pos + 2 * j + 1])) for j in range(k)])); pos += 2 * k
+    return nodes, ' '.join(t[start:pos]), pos
+
+
+def parse_ext(line):
+    """answer of EXT64 / EXTD / SYN -> dict(ok, T=(nodes, tokens), P2P, FC, F, E, FP, EP, T64, S, OS) or None"""
+    if ' OS ' not in line and not line.endswith(' OS'):
+        return None
+    head, _, text = line.partition(' OS ')
+    t = head.split()
+    if not t or t[0] not in ('ok', 'fail'):
+        return None
+    r = dict(ok=t[0] == 'ok', OS=text)
+    pos = 1
+    try:
+        while pos < len(t):
+            lab = t[pos]; pos += 1
+            if lab in ('T', 'F', 'E', 'T64'):
+                nodes, toks, pos = _take_tree(t, pos)
+                r[lab] = (nodes, toks)
+            elif lab in ('P2P', 'FP', 'EP'):
+                r[lab], pos = vf.parse_paths(t, pos)
+            elif lab in ('FC', 'S'):
+                r[lab] = int(t[pos]); pos += 1
+            else:
+                return None
+    except (IndexError, ValueError):
+        return None
+    return r
+
+
+def ext_line(c, ct, fr, pc, rs, prec=None):
+    body = '%d %d %d %d %s %s %s' % (ct, fr, pc, rs, vf.fmt_paths(c['S']), vf.fmt_paths(c.get('O', [])), vf.fmt_paths(c['C']))
+    return ('EXT64 ' + body) if prec is None else ('EXTD %d ' % prec + body)
+
+
+def syn_tree(rng):
+    """a hand-made tree: polygons of a few simple kinds, mostly nested in their parent, sometimes pushed partly or wholly outside
+    it or touching its boundary -> [(depth, path)] in preorder"""
+    def poly(x0, y0, x1, y1):
+        k = rng.below(5)
+        mx, my = (x0 + x1) // 2, (y0 + y1) // 2
+        if k == 0 or x1 - x0 < 4 or y1 - y0 < 4:
+            p = [(x0, y0), (x1, y0), (x1, y1), (x0, y1)]
+        elif k == 1:
+            p = [(x0, y0), (x1, y0), (mx, y1)]
+        elif k == 2:
+            p = [(x0, y0), (x1, y0), (x1, my), (mx, my), (mx, y1), (x0, y1)]
+        elif k == 3:
+            p = [(mx, y0), (x1, my), (mx, y1), (x0, my)]
+        else:
+            p = [(x0, y0), (mx, y0), (x1, y0), (x1, y1), (mx, y1), (x0, y1)]
+        if rng.chance(1, 2):
+            p = p[::-1]
+        r = rng.below(len(p))
+        return p[r:] + p[:r]
+    out = []
+
+    def rec(d, box, left):
+        x0, y0, x1, y1 = box
+        k = rng.range(1, 3) if d == 0 else rng.range(0, 3) if d < 3 else rng.range(0, 1)
+        if k == 0 or (x1 - x0) // k < 8 or y1 - y0 < 8:
+            return
+        sw = (x1 - x0) // k
+        for q in range(k):
+            if left[0] <= 0:
+                return
+            left[0] -= 1
+            sx0, sx1 = x0 + q * sw, x0 + (q + 1) * sw
+            a = sx0 + rng.range(1, max(1, sw // 5)); c = sx1 - rng.range(1, max(1, sw // 5))
+            b = y0 + rng.range(1, max(1, (y1 - y0) // 5)); e = y1 - rng.range(1, max(1, (y1 - y0) // 5))
+            w = rng.below(12)
+            if w == 0:                                   # wholly outside
+                a, c = a + 1000, c + 1000
+            elif w == 1:                                 # pushed over one side: some vertices outside
+                sh = rng.range(1, x1 - x0)
+                a, c = a + sh, c + sh
+            elif w == 2:
+                sh = rng.range(1, y1 - y0)
+                b, e = b - sh, e - sh
+            elif w == 3:                                 # touching the parent's box
+                a = x0
+            elif w == 4:
+                e = y1
+            out.append((d, poly(a, b, c, e)))
+            rec(d + 1, (a, b, c, e), left)
+    rec(0, (0, 0, rng.choice([60, 200, 1000]), rng.choice([60, 200, 1000])), [rng.range(2, 14)])
+    return out
+
+
+def syn_line(tr):
+    return 'SYN %d %s' % (len(tr), ' '.join('%d %d %s' % (d, len(p), ' '.join('%d %d' % v for v in p)) for d, p in tr))
+
+
+def judge_ext(env, line, ans, geom=None, maxabs=0, fcc=None):
+    """-> [(key, what)] for one EXT64 / EXTD / SYN answer; fcc = the model's answer for FC when already computed"""
+    t0 = line.split(' ', 8)
+    cmd = t0[0]
+    r = parse_ext(ans)
+    if r is None or 'T' not in r:
+        return [('crash.polytree', 'unparsable answer to %s: %s' % (cmd, ans[:200]))]
+    out = []
+    nodes, toks = r['T']
+    if not r['ok']:
+        out.append(('execute-returned-false', 'Execute returned false'))
+    want = [n[3] for n in nodes]
+    if r.get('P2P') != want:
+        out.append(('ext.polytree-to-paths', 'PolyTreeToPaths%s does not return the polygons of the tree in preorder: %s / tree %s'
+                    % ('D' if cmd == 'EXTD' else '64', str(r.get('P2P'))[:160], str(want)[:160])))
+    ch = tree_children(nodes)
+    bad = [i for i, n in enumerate(nodes) if n[2] != len(ch[i])]
+    if bad:
+        out.append(('ext.child-count', 'Count() of tree node %d is %d, the traversal finds %d children' % (bad[0], nodes[bad[0]][2], len(ch[bad[0]]))))
+    exp = outline_text(nodes, cmd == 'EXTD')
+    if r['OS'] != exp:
+        out.append(('ext.ostream-text', 'operator<< prints "%s", the tree is "%s"' % (r['OS'][:200], exp[:200])))
+    if cmd == 'SYN':
+        g = line.split()
+        given, pos = [], 2
+        for _ in range(int(g[1])):
+            d, k = int(g[pos]), int(g[pos + 1])
+            given.append((d, [(int(g[pos + 2 + 2 * j]), int(g[pos + 3 + 2 * j])) for j in range(k)])); pos += 2 + 2 * k
+        if [(n[0], n[3]) for n in nodes] != given:
+            out.append(('ext.polytree-to-paths', 'the traversal of a hand-built tree does not give back the polygons it was built from'))
+        if [n[1] for n in nodes] != [n[0] % 2 for n in nodes]:
+            out.append(('tree.orientation-depth', 'IsHole of a hand-built tree is not "odd depth"'))
+    if cmd in ('EXT64', 'EXTD'):
+        if r['F'][1] != r['E'][1]:
+            out.append(('ext.free-booleanop-tree', 'the free BooleanOp with a PolyTree solution differs from Execute on a fresh object: %s / %s'
+                        % (r['F'][1][:160], r['E'][1][:160])))
+        if r['FP'] != r['EP']:
+            out.append(('ext.free-booleanop-paths', 'the free BooleanOp differs from Execute on a fresh object: %s / %s' % (str(r['FP'])[:160], str(r['EP'])[:160])))
+        pc, rs = (t0[3], t0[4]) if cmd == 'EXT64' else (t0[4], t0[5])
+        tail = line.split()
+        if pc == '1' and rs == '0' and r['E'][1] != toks:
+            # same settings as a default object: only open subjects can make the difference
+            S, pos = vf.parse_paths(tail, 5 if cmd == 'EXT64' else 6)
+            O, pos = vf.parse_paths(tail, pos)
+            if not O:
+                out.append(('ext.free-booleanop-tree', 'Execute(ct, fr, tree) on a fresh default object differs from Execute(ct, fr, tree, open): %s / %s'
+                            % (r['E'][1][:160], toks[:160])))
+    if cmd == 'EXTD' and r['T64'][1] != toks:
+        out.append(('ext.polytreeD-not-the-descaled-64-bit-tree', 'PolyTreeD times the scale %s differs from the PolyTree64 of the scaled input: %s / %s'
+                    % (r.get('S'), toks[:160], r['T64'][1][:160])))
+    if 'FC' in r:
+        if fcc is None and maxabs <= EXACT_PIP:
+            fcc = vf.run_lines(env.oracle, ['FCC ' + toks], timeout=120).stdout.strip()
+        if fcc is not None and fcc != str(r['FC']):
+            out.append(('ext.fully-contains-children', 'CheckPolytreeFullyContainsChildren answers %s, the model (TreeCheck.fully_contains) %s on %s'
+                        % (r['FC'], fcc, toks[:200])))
+        if r['FC'] == 0 and geom == 'genpos':
+            out.append(('tree.child-outside-parent', 'CheckPolytreeFullyContainsChildren is false on the tree of a general-position input'))
+    return out
+
+
+def phase_ext(ctx, env, groups):
+    """groups = [(label, cases, per_case_combos, precs)]"""
+    if env.dead:
+        ctx.count('phases_skipped_after_hang_or_crash')
+        return
+    rng = ctx.rng.fork(51)
+    lines, meta = [], []
+    for label, cases, combos, precs in groups:
+        for c in cases:
+            cl = [c['only']] if c.get('only') else [(ct, fr) for ct in CT for fr in FR]
+            rng.shuffle(cl)
+            for ct, fr in cl[:combos]:
+                pc, rs = (1, 0) if rng.chance(1, 3) else (rng.below(2), rng.below(2))
+                prec = rng.choice(precs)
+                m = polys.maxabs([c['S'], c.get('O', []), c['C']])
+                if prec is not None and m * 2 * 10 ** prec > MAX_COORD:
+                    prec = None
+                lines.append(ext_line(c, ct, fr, pc, rs, prec)); meta.append((c.get('geom'), m, c['kind']))
+    syn = [syn_tree(rng) for _ in range(3000 if ctx.quick else 30000)]
+    syn = [t for t in syn if t]
+    for t in syn:
+        lines.append(syn_line(t)); meta.append((None, 0, 'hand-built tree'))
+    outs = robust_lines(ctx, env, lines, 'PolyTree entry points of clipper.h')
+    if outs is None:
+        return
+    # the model's answer for every tree CheckPolytreeFullyContainsChildren was asked about
+    fl, fidx = [], []
+    parsed = {}
+    for k, ans in enumerate(outs):
+        if ans is None:
+            continue
+        r = parse_ext(ans)
+        parsed[k] = r
+        if r is not None and 'FC' in r and 'T' in r and meta[k][1] <= EXACT_PIP:
+            fl.append('FCC ' + r['T'][1]); fidx.append(k)
+        elif r is not None and 'FC' in r:
+            ctx.count('fully_contains_recorded_not_judged_large_coordinates')
+    fres, f2 = vf.par_lines(env.oracle, fl, timeout=900)
+    if f2:
+        raise vf.Infra('oracle FCC failed: %s' % f2[0][2][:300])
+    fcc = dict(zip(fidx, (x.strip() for x in fres)))
+    for k, ans in enumerate(outs):
+        if ans is None:
+            continue
+        cmd = lines[k].split(' ', 1)[0]
+        ctx.count('entry_point_evaluations_' + cmd)
+        r = parsed.get(k)
+        if r is not None and 'FC' in r:
+            ctx.hist('fully_contains_children_answers', '%s:%s' % ('hand-built' if cmd == 'SYN' else (meta[k][0] or 'other'), r['FC']))
+        if r is not None and 'T' in r and any(n[2] for n in r['T'][0]):
+            ctx.count('entry_point_trees_with_nesting')
+        for key, what in judge_ext(env, lines[k], ans, geom=meta[k][0], maxabs=meta[k][1], fcc=fcc.get(k)):
+            viol(ctx, key, '%s (%s): %s' % (cmd, meta[k][2], what), replay=dict(kind='ext', line=lines[k], geom=meta[k][0], maxabs=meta[k][1], key=key), cap=1)
+
 
 
 class Env:
@@ -742,11 +1094,11 @@ def phase_api(ctx, env, cases, label, precs=(None,), combos=None):
         r = parse_api(line)
         ctx.count('evaluations')
         if r is None:
-            ctx.violation('crash.polytree', 'unparsable answer: %s' % line[:200], replay=dict(kind='line', line=lines[k]))
+            viol(ctx, 'crash.polytree', 'unparsable answer: %s' % line[:200], replay=dict(kind='line', line=lines[k]))
             continue
         parsed[k] = r
         if not r['ok']:
-            ctx.violation('execute-returned-false', 'Execute returned false', replay=dict(kind='line', line=lines[k]))
+            viol(ctx, 'execute-returned-false', 'Execute returned false', replay=dict(kind='line', line=lines[k]))
         chk.append(check_line(j[4], r)); cidx.append(k)
     res, f2 = vf.par_lines(env.oracle, chk, timeout=1500)
     if f2:
@@ -922,16 +1274,23 @@ def run(ctx):
     rng3 = ctx.rng.fork(3)
     lat = [lattice_case(rng3) for _ in range(2500 * mul)] if nesting is not None else []
     lat = [c for c in lat if precondition(env, c, 'rect')]
+    rng4 = ctx.rng.fork(4)
+    sm = [sm_case(rng4) for _ in range(350 * mul)] if splitmerge is not None else []
+    sm = [c for c in sm if precondition(env, c, 'rect')]
     phase_tie_tree(ctx, env, fixed, 'fixed')
     phase_tie_tree(ctx, env, rect, 'rect', combos=8)
     phase_tie_tree(ctx, env, lat, 'lattice', combos=3)
     phase_tie_tree(ctx, env, gp, 'genpos', combos=6)
+    phase_tie_tree(ctx, env, sm, 'splitmerge', combos=4)
     decide_tie(ctx, env)
     witness2(ctx, env)
     phase_api(ctx, env, fixed_api, 'fixed', precs=(None, 2))
     phase_api(ctx, env, rect, 'rect', precs=(None, 0, 1, 2), combos=8)
     phase_api(ctx, env, lat, 'lattice', precs=(None,), combos=8)
     phase_api(ctx, env, gp, 'genpos', precs=(None, 2), combos=8)
+    phase_api(ctx, env, sm, 'splitmerge', precs=(None,), combos=8)
+    phase_ext(ctx, env, [('fixed', fixed_api, 1, (None, None, 2)), ('rect', rect, 1, (None, None, 0, 1, 2)), ('lattice', lat[:len(lat) // 3], 1, (None,)),
+                         ('genpos', gp, 3, (None, None, 2)), ('splitmerge', sm, 1, (None, None, 1))])
     for c in rect[:2] + gp[:1] + lat[:1]:
         ctx.sample(dict(S=c['S'], C=c['C'], kind=c['kind']))
     ctx.cov['rule'] = ('(1) owner-edit sequences: all SetOwner/pts=null sequences of length <= 4 over 3 OutRecs + random sequences of 11 kinds of '
@@ -943,7 +1302,13 @@ def run(ctx):
                        'holes, U/comb shapes closed by bars = horizontal joins, staircases, issue families, overlapping rectangles on a small '
                        'lattice, the pinned inputs of corpus/C04), nested general-position stars (extracted Coq predicate) and the upstream '
                        'PolytreeHoleOwner inputs; clip type x fill rule sampled per case, random PreserveCollinear/ReverseSolution; '
-                       'non-trivial = distinct (case, clip type, fill rule) whose tree has depth >= 2')
+                       'non-trivial = distinct (case, clip type, fill rule) whose tree has depth >= 2; '
+                       '(4) storeys of combs closed by bars with chambers and islands (gen/splitmerge.py: horizontal joins that MERGE two OutRecs '
+                       'which both own split lists, MoveSplits appending to a non-empty list) through (2) and (3); '
+                       '(5) the entry points of clipper.h around a PolyTree (PolyTreeToPaths64/D, CheckPolytreeFullyContainsChildren, operator<<, '
+                       'free BooleanOp overloads) on a sample of the cases of (3) and on hand-built trees: equal to the harness traversal of the tree, '
+                       'to the extracted model TreeCheck.fully_contains, to the text derived from the traversal, to Execute on a fresh object, and '
+                       'PolyTreeD times the scale equal to the PolyTree64 of the scaled input')
     ctx.assumptions += ['SetOwner is never called with outrec == new_owner and owners that are assigned exist (hypothesis run_ok of C04_owner_forest; '
                         'holds at every call site by inspection, and the self-owning result is exhibited by C04_owner_forest_refuted_without_wf)',
                         'CheckBounds is modelled on a state where it has been evaluated for every OutRec (the harness forces this before dumping)',
@@ -975,6 +1340,16 @@ def replay(ctx, path):
             print('model:', m[:2000])
             if m != p.stdout.strip():
                 ctx.violation('tie.owner-ops', 'replayed: real functions and model disagree', replay=r, nofail=True)
+        return
+    if r.get('kind') == 'ext':
+        p = vf.run_lines(env.exes['owner'], [r['line']], timeout=60)
+        print('C++  :', p.stdout.strip()[:3000], p.stderr[-300:])
+        if p.returncode != 0:
+            ctx.violation(crash_key(env, r['line']), 'replayed: rc=%s' % p.returncode, replay=r)
+            return
+        for key, what in judge_ext(env, r['line'], p.stdout.rstrip('\n'), geom=r.get('geom'), maxabs=r.get('maxabs', 0)):
+            print(key, ':', what)
+            ctx.violation(key, 'replayed: %s' % what, replay=r)
         return
     c = r['case']
     for w in ('S', 'O', 'C'):
